@@ -461,7 +461,13 @@ fn random_faults(seed: u64, thorough: bool, rep: &Report) -> Result<(), String> 
                     .cloned()
                     .filter(|m| !fault_active(*m, t.t_send.saturating_sub(margin), t.t_done) && !admin_touched(*m, t.t_send.saturating_sub(margin), t.t_done))
                     .collect();
-                if !healthy.is_empty() {
+                // the pooler's own limits here are a few hundred ms of real time: when this machine
+                // stalled for a comparable time, a spurious health-check / connect timeout inside
+                // the pooler says nothing about the servers
+                let stalled = crate::util::max_stall_ms(t.t_send.saturating_sub(3_000_000_000), t.t_done);
+                if !healthy.is_empty() && stalled >= 80 {
+                    rep.count("verdicts_withheld_machine_stalled", 1);
+                } else if !healthy.is_empty() {
                     rep.violation(
                         &format!("C07|transaction_failed_although_healthy_candidate_existed|role={}", t.role),
                         &format!(
@@ -653,9 +659,15 @@ fn hung_replica_and_impatient_clients(seed: u64, rep: &Report) -> Result<(), Str
     let impatient = rng.chance(2, 3);
     // the replica either hangs on everything (also on the pooler's own round trips: health check,
     // parameter sync) or only on client statements (the statement timeout is what detects it)
-    let everything = rng.chance(1, 2);
+    // ... or it goes silent in the MIDDLE of a large reply (after the first 8 KiB have been relayed)
+    let hang_kind = rng.below(3);
+    let everything = hang_kind == 0;
+    let mid_reply = hang_kind == 2;
     if everything {
         lay.cell.mocks[hung].ctl.q_hang.store(true, Ordering::SeqCst);
+    } else if mid_reply {
+        lay.cell.mocks[hung].ctl.mid_after.store(12_000, Ordering::SeqCst);
+        lay.cell.mocks[hung].ctl.mid_mode.store(MID_HANG, Ordering::SeqCst);
     } else {
         lay.cell.mocks[hung].ctl.tag_hang.store(true, Ordering::SeqCst);
     }
@@ -665,7 +677,7 @@ fn hung_replica_and_impatient_clients(seed: u64, rep: &Report) -> Result<(), Str
         let mut c = Conn::connect(&addr, &StartupOpts::new(USER, "db", PASS).app("imp")).map_err(|e| e.to_string())?;
         let _ = c.query("SET SERVER ROLE TO 'replica'", 5000);
         let qid = format!("imp.q{}", k);
-        let r = c.query(&format!("SELECT 1 {}", tag("imp", &qid, "rows=1")), if impatient { 120 } else { 5000 });
+        let r = c.query(&format!("SELECT 1 {}", tag("imp", &qid, if mid_reply { "rows=40 w=1000" } else { "rows=1" })), if impatient { 120 } else { 5000 });
         match r {
             Err((_, crate::wire::ReadErr::Timeout)) => {
                 reached_hung += 1;
@@ -681,7 +693,7 @@ fn hung_replica_and_impatient_clients(seed: u64, rep: &Report) -> Result<(), Str
                 reached_hung += 1;
                 if !impatient && e == crate::wire::ReadErr::Timeout {
                     rep.violation(
-                        &format!("C07|client_blocked_beyond_configured_timeouts|hangs_on={}", if everything { "every_message" } else { "client_statements" }),
+                        &format!("C07|client_blocked_beyond_configured_timeouts|hangs_on={}", if everything { "every_message" } else if mid_reply { "middle_of_a_large_reply" } else { "client_statements" }),
                         &format!("a client waited 5 s for {} (connect / health-check / statement timeouts are {}/{}/{} ms) while {} hung; got {}", qid, CONNECT_MS, HC_MS, STMT_MS, labels[hung], summarize(&m)),
                         json!({"seed": seed, "log": lay.cell.pg().log_tail(6)}),
                     );
@@ -702,7 +714,7 @@ fn hung_replica_and_impatient_clients(seed: u64, rep: &Report) -> Result<(), Str
     let banned = lay.cell.pg().events().iter().any(|(t, k, line)| k == "ban" && *t >= t_on && line.contains(&needle));
     if !banned {
         rep.violation(
-            &format!("C07|replica_hung_on_a_statement_beyond_statement_timeout_was_not_banned|client={}|hangs_on={}", if impatient { "reset_its_connection_first" } else { "waited" }, if everything { "every_message" } else { "client_statements" }),
+            &format!("C07|replica_hung_on_a_statement_beyond_statement_timeout_was_not_banned|client={}|hangs_on={}", if impatient { "reset_its_connection_first" } else { "waited" }, if everything { "every_message" } else if mid_reply { "middle_of_a_large_reply" } else { "client_statements" }),
             &format!("{} sat on a client statement for more than the statement timeout ({} ms); the client {}; no ban followed", labels[hung], STMT_MS, if impatient { "had reset its connection after 120 ms" } else { "waited for the pooler's error" }),
             json!({"seed": seed, "needle": needle, "events": lay.cell.pg().events().iter().filter(|e| e.1.starts_with("ban")).map(|e| format!("{} {} {}", e.0, e.1, e.2)).collect::<Vec<_>>(), "reached_hung": reached_hung, "log": lay.cell.pg().log_text().lines().filter(|l| l.contains("Banning") || l.contains("timeout") || l.contains("ERROR")).map(|l| l.chars().take(200).collect::<String>()).collect::<Vec<_>>()}),
         );
@@ -726,7 +738,7 @@ fn hung_replica_and_impatient_clients(seed: u64, rep: &Report) -> Result<(), Str
         }
         c.terminate();
     }
-    lay.cell.mocks[hung].ctl.q_hang.store(false, Ordering::SeqCst);
+    lay.cell.mocks[hung].ctl.heal();
     lay.cell.mocks[hung].ctl.tag_hang.store(false, Ordering::SeqCst);
     Ok(())
 }
